@@ -20,6 +20,8 @@ def run(ctx, rep):
         rep.analysed["bodies" + tag] = len(prog.bodies)
         init(prog, rep, spec, tag)
         new(prog, rep, tag)
+        capability(ctx, prog, rep, spec, tag)
+        fallback_name(ctx, prog, rep, tag)
 
 
 def init(prog, rep, spec, tag):
@@ -154,3 +156,220 @@ def new(prog, rep, tag):
         cs = mb.calls_to(cmd)
         ok = len(cs) == 1 and has_root(Prov(mb).of_operand(cs[0].args[0]), "field", "SubDeviceRef", "configured_address")
         rep.ob(P, "%s:own-address%s" % (m, tag), ok, "%s addresses %s(self.configured_address, ..)" % (m, cmd), loc=mb.span, how="dataflow")
+
+
+def capability(ctx, prog, rep, spec, tag):
+    """What init records about a device besides its identity: DC capability and ports.  The registers are decoded
+    by derived wire structs (bit positions against the ESC register map), the capability is a pure function of three
+    flag bits (decision table extracted from the MIR of SupportFlags::dc_support for all 8 combinations), and the four
+    link bits become the ports in frame-processing order 0 -> 3 -> 1 -> 2 with matching port numbers."""
+    import os
+    from .. import wirelayout as wl
+
+    P = "C09.cap"
+    decl = wl.declared([os.path.join(ctx.repo, "src")], features=("std", "default"))
+    items = {}
+    for i in decl["items"]:
+        items.setdefault(i["name"], []).append(i)
+    for name, want in spec["reg_structs"].items():
+        if name.startswith("_"):
+            continue
+        its = items.get(name, [])
+        if len(its) != 1:
+            rep.anchor_missing("derive site %s (found %d)" % (name, len(its)))
+            continue
+        total, ref, problems = wl.ref_layout(its[0])
+        w = {k: tuple(v) for k, v in want.items() if not k.startswith("_")}
+        got = {k: ref.get(k) for k in w}
+        ok = got == w and total == want["_bytes"] * 8 and not problems
+        rep.ob(P, "layout:%s%s" % (name, tag), ok, "declared layout of %s equals the ESC register map %s" % (name, "" if ok else {k: (got[k], w[k]) for k in w if got[k] != w[k]}), loc="%s:%s" % (os.path.relpath(its[0]["file"], ctx.repo), its[0]["line"]), how="table")
+    b = prog.body("SupportFlags::dc_support")
+    tb = q.decision_table(b, ["dc_supported", "enhanced_dc_sync", "has_64bit_dc"])
+    want = {k: v for k, v in spec["dc_support_table"].items() if not k.startswith("_")}
+    got = {"".join("1" if x else "0" for x in k): v for k, v in tb.items()} if tb is not None else None
+    rep.ob(P, "dc_support:decision-table" + tag, got == want, "SupportFlags::dc_support maps (dc_supported, enhanced_dc_sync, has_64bit_dc) to DcSupport as documented, for all 8 combinations%s" % ("" if got == want else ": got %s" % (got if got is not None else "a body outside the interpretable fragment")), loc=b.span, how="table")
+    anyb = prog.body("DcSupport::any")
+    # simpler and exact: interpret DcSupport::any for each variant through its MIR
+    rep.ob(P, "dc_support:any-means-not-None" + tag, _any_table(prog, anyb) == {"None": 0, "RefOnly": 1, "Bits32": 1, "Bits64": 1}, "DcSupport::any() is false exactly for DcSupport::None: %s" % _any_table(prog, anyb), loc=anyb.span, how="table")
+    # ports
+    nb = None
+    for g in prog.group("SubDevice::new"):
+        if g.calls_to("Ports::new"):
+            nb = g
+    ok = nb is not None
+    if ok:
+        c = nb.calls_to("Ports::new")[0]
+        pr = Prov(nb)
+        order = []
+        for a in c.args:
+            f = [x[2] for x in pr.of_operand(a) if x[0] == "field" and x[1] == "DlStatus"]
+            order.append(f[0] if len(f) == 1 else None)
+        ok = order == ["link_port%d" % k for k in spec["port_order"]["order"]]
+    rep.ob(P, "ports:link-bits-in-processing-order" + tag, ok, "Ports::new receives DlStatus.link_port0, 3, 1, 2 - the link bits in frame processing order", loc=nb.span if nb else None, how="dataflow")
+    pn = prog.body("Ports::new")
+    ports = q.aggregates(pn, "Port")
+    prn = Prov(pn)
+    m = []
+    for bi, si, st in ports:
+        act = [x[1] for x in prn.of_operand(q.agg_field(st, "active")) if x[0] == "arg"]
+        num = q.const_int(q.agg_field(st, "number"))
+        m.append((act[0] if len(act) == 1 else None, num))
+    arr = [x for x in q.aggregates(pn, None) if x[2]["rv"].get("ak") == "array"]
+    okn = sorted(m) == [(1, 0), (2, 3), (3, 1), (4, 2)]
+    rep.ob(P, "ports:numbering" + tag, okn, "Ports::new pairs its arguments with port numbers 0, 3, 1, 2 in that order: %s" % sorted(m), loc=pn.span, how="dataflow")
+    # recorded in the SubDevice from reads through its own reference
+    b = prog.async_body("SubDevice::new")
+    ag = q.aggregates(b, "SubDevice")
+    ok = len(ag) == 1
+    if ok:
+        pr = Prov(b, follow_all={"Result::map"})
+        pf = Prov(b, follow_all={"Result::map", "SupportFlags::dc_support"})
+        fl = pf.of_operand(q.agg_field(ag[0][2], "dc_support"))
+        po = pr.of_operand(q.agg_field(ag[0][2], "ports"))
+        ok = has_root(fl, "via", "SupportFlags::dc_support") and has_root(fl, "await", "WrappedRead::receive") and has_root(po, "await", "WrappedRead::receive")
+        regs = set()
+        for c in b.calls_to("SubDeviceRef::read"):
+            for x in Prov(b, follow_all={"Into::into"}).of_operand(c.args[1]):
+                if x[0] == "agg" and x[1] == "RegisterAddress":
+                    regs.add(x[2])
+        ok = ok and {"SupportFlags", "DlStatus", "ConfiguredStationAlias"} <= regs
+    rep.ob(P, "recorded-from-own-registers" + tag, ok, "SubDevice.dc_support (= dc_support() of the flags read) / .ports / .alias_address come from reads of the SupportFlags, DlStatus and ConfiguredStationAlias registers through the device's own reference", loc=b.span, how="dataflow")
+
+
+def _any_table(prog, anyb):
+    """DcSupport::any evaluated for each variant of *self (self is an enum: feed the discriminant)."""
+    adt = prog.adt("DcSupport")
+    out = {}
+    for i, v in enumerate(adt["variants"]):
+        d = v.get("discr", i)
+        # walk: switch on discriminant of *self
+        bb = 0
+        env = {}
+        res = None
+        for _ in range(50):
+            blk = anyb.blocks[bb]
+            for st in blk["stmts"]:
+                if st["k"] == "assign" and not st["place"]["p"]:
+                    rv = st["rv"]
+                    if rv["k"] == "discr":
+                        env[st["place"]["l"]] = d
+                    elif rv["k"] == "use":
+                        ci = q.const_int(rv["a"][0])
+                        pl = op_place(rv["a"][0])
+                        env[st["place"]["l"]] = ci if ci is not None else (env.get(pl["l"]) if pl and not pl["p"] else None)
+                    elif rv["k"] == "un" and rv["op"] == "Not":
+                        pl = op_place(rv["a"][0])
+                        x = env.get(pl["l"]) if pl and not pl["p"] else None
+                        env[st["place"]["l"]] = None if x is None else 1 - int(x)
+                    elif rv["k"] == "bin" and rv["op"] in ("Eq", "Ne"):
+                        vals = []
+                        for a in rv["a"]:
+                            ci = q.const_int(a)
+                            pl = op_place(a)
+                            vals.append(ci if ci is not None else (env.get(pl["l"]) if pl and not pl["p"] else None))
+                        env[st["place"]["l"]] = None if None in vals else int((vals[0] == vals[1]) == (rv["op"] == "Eq"))
+                    else:
+                        env[st["place"]["l"]] = None
+            t = blk["term"]
+            if t["k"] == "goto":
+                bb = t["t"]
+            elif t["k"] == "switch":
+                pl = op_place(t["d"])
+                x = env.get(pl["l"]) if pl and not pl["p"] else None
+                if x is None:
+                    break
+                nxt = t["otherwise"]
+                for v_, tgt in t["arms"]:
+                    if v_ == int(x):
+                        nxt = tgt
+                bb = nxt
+            elif t["k"] == "return":
+                res = env.get(0)
+                break
+            else:
+                break
+        out[v["name"]] = res
+    return out
+
+
+def _fmt_max_len(template, arg_bits):
+    """Upper bound of the formatted length of a format string whose arguments are unsigned integers of the given
+    bit widths (None: unknown).  -> int or None (cannot establish)."""
+    import re
+
+    n = 0
+    i = 0
+    k = 0
+    t = template.replace("{{", "\x00").replace("}}", "\x01")
+    for m in re.finditer(r"\{([^{}:]*)(?::([^{}]*))?\}", t):
+        n += len(t[i:m.start()])
+        i = m.end()
+        spec = m.group(2) or ""
+        ms = re.fullmatch(r"(#?)(0?)(\d*)([xXob]?)", spec)
+        if ms is None or m.group(1).strip():
+            return None
+        bits = arg_bits[k] if k < len(arg_bits) else None
+        k += 1
+        if bits is None:
+            return None
+        alt, _zero, width, ty = ms.groups()
+        digits = {"x": (bits + 3) // 4, "X": (bits + 3) // 4, "o": (bits + 2) // 3, "b": bits, "": len(str((1 << bits) - 1))}[ty]
+        ln = digits + (2 if alt and ty else 0)
+        n += max(ln, int(width) if width else 0)
+    n += len(t[i:])
+    return n
+
+
+def fallback_name(ctx, prog, rep, tag):
+    """Two sites that must agree: the generated fallback name of a SubDevice without a name in its EEPROM is written
+    with `fmt::unwrap!(write!(..))` into the fixed capacity `name` string - a format text longer than the capacity
+    makes init panic for every nameless device (no captured network has one)."""
+    import re
+
+    P = "C09.new"
+    site = None
+    for g in prog.group("SubDevice::new"):
+        wf = [c for c in g.calls() if c.name.endswith("Write::write_fmt")]
+        pn = [c for c in g.calls() if c.name.startswith("panicking::")]
+        if wf and pn:
+            site = (g, wf[0])
+    if site is None:
+        rep.ob(P, "fallback-name-fits" + tag, True, "no panicking write!() into the name string in SubDevice::new", how="inventory", nontrivial=False)
+        return
+    g, c = site
+    cap = None
+    for f in prog.adt("SubDevice")["variants"][0]["fields"]:
+        if f["name"] == "name":
+            m = re.search(r"String<(\d+)>", f["ty"])
+            cap = int(m.group(1)) if m else None
+    # the macro's arguments, from the source text at the call's span
+    fn, line, col = c.span.rsplit(":", 2)
+    src = ctx.src(fn).splitlines()
+    text = "\n".join(src[int(line) - 1:int(line) + 12])
+    text = text[text.index("write!"):] if "write!" in text else ""
+    depth = 0
+    end = None
+    for i, ch in enumerate(text):
+        if ch == "(":
+            depth += 1
+        elif ch == ")":
+            depth -= 1
+            if depth == 0:
+                end = i
+                break
+    body = text[text.index("(") + 1:end] if end else ""
+    m = re.search(r'"((?:[^"\\\\]|\\\\.)*)"', body)
+    ok = False
+    why = "could not read the format string at %s" % c.span
+    if m and cap is not None:
+        args = [a.strip() for a in body[m.end():].split(",") if a.strip()]
+        ident = {f["name"]: f["ty"] for f in prog.adt("SubDeviceIdentity")["variants"][0]["fields"]}
+        bits = []
+        for a in args:
+            ma = re.fullmatch(r"identity\.(\w+)", a)
+            ty = ident.get(ma.group(1)) if ma else None
+            bits.append({"u8": 8, "u16": 16, "u32": 32, "u64": 64}.get(ty))
+        mx = _fmt_max_len(m.group(1), bits)
+        ok = mx is not None and mx <= cap
+        why = "at most %s characters into a heapless::String<%d>" % (mx if mx is not None else "an unknown number of", cap)
+    rep.ob(P, "fallback-name-fits" + tag, ok, "the generated fallback name fits the fixed capacity it is unwrap-written into: %s" % why, loc=c.span, how="table")
